@@ -1228,6 +1228,17 @@ type typeParserParamNode struct {
 func (t *typeParser) parse() typeParserResult {
 	// parse the AST
 	ast, ok := t.parseClassNode()
+	if ok {
+		// ReversedType / CompositeType (and a reversed component) need their parameters
+		ok = len(ast.params) >= ast.paramsNeeded()
+		if ok && strings.HasPrefix(ast.name, COMPOSITE_TYPE) {
+			for _, param := range ast.params {
+				if len(param.class.params) < param.class.paramsNeeded() {
+					ok = false
+				}
+			}
+		}
+	}
 	if !ok {
 		// treat this is a custom type
 		return typeParserResult{
@@ -1309,6 +1320,10 @@ func (t *typeParser) parse() typeParserResult {
 }
 
 func (class *typeParserClassNode) asTypeInfo() TypeInfo {
+	// a collection class without the parameters it needs is kept as a custom type
+	if need := class.paramsNeeded(); len(class.params) < need {
+		return NativeType{typ: TypeCustom, custom: class.input}
+	}
 	if strings.HasPrefix(class.name, LIST_TYPE) {
 		elem := class.params[0].class.asTypeInfo()
 		return CollectionType{
@@ -1346,6 +1361,18 @@ func (class *typeParserClassNode) asTypeInfo() TypeInfo {
 		info.custom = class.input
 	}
 	return info
+}
+
+// paramsNeeded is the number of parameters the class must have to be interpreted.
+func (class *typeParserClassNode) paramsNeeded() int {
+	switch {
+	case strings.HasPrefix(class.name, MAP_TYPE):
+		return 2
+	case strings.HasPrefix(class.name, LIST_TYPE), strings.HasPrefix(class.name, SET_TYPE),
+		strings.HasPrefix(class.name, REVERSED_TYPE), strings.HasPrefix(class.name, COMPOSITE_TYPE):
+		return 1
+	}
+	return 0
 }
 
 // CLASS := ID [ PARAMS ]
